@@ -132,6 +132,7 @@ func (H) Generate(r *simrt.Rand, tier string) any {
 	}
 	next := 0
 	val := func() int { next++; return next }
+	var dead []int // keys the prefix template left deleted
 	single := r.Intn(8) == 0
 	// prefix: drive the read/dirty/expunged machine somewhere interesting
 	switch r.Intn(4) {
@@ -157,6 +158,30 @@ func (H) Generate(r *simrt.Rand, tier string) any {
 			s.Prefix = append(s.Prefix, Op{K: "load", Key: 2 % s.Keys})
 		}
 	default:
+		if big && !single && r.Intn(3) == 0 {
+			// template: every key stored, then a share of them deleted - a map full of
+			// dead entries, one or two deletions away from whatever clean-up an
+			// implementation triggers by their number or share (a sweep of tombstones
+			// at 8 or 16 of them or at half the slots, a rebuild, a compaction); the
+			// clients then prefer to delete live keys and to store to dead ones
+			s.Keys = 10 + r.Intn(15)
+			for k := 0; k < s.Keys; k++ {
+				s.Prefix = append(s.Prefix, Op{K: "store", Key: k, Val: val()})
+			}
+			cands := []int{6, 7, 8, 15, 16, s.Keys/2 - 2, s.Keys/2 - 1, s.Keys / 2}
+			d := cands[r.Intn(len(cands))]
+			if d >= s.Keys {
+				d = s.Keys - 1
+			}
+			if d < 1 {
+				d = 1
+			}
+			for _, k := range r.Perm(s.Keys)[:d] {
+				s.Prefix = append(s.Prefix, Op{K: []string{"del", "lad"}[r.Intn(2)], Key: k})
+				dead = append(dead, k)
+			}
+			break
+		}
 		n := r.Intn(13)
 		if big {
 			n = s.Keys + r.Intn(2*s.Keys)
@@ -189,7 +214,30 @@ func (H) Generate(r *simrt.Rand, tier string) any {
 	for i := 0; i < nc; i++ {
 		var c []Op
 		for j := 0; j < 1+r.Intn(maxOps); j++ {
-			c = append(c, genOp(r, s.Keys, &next))
+			o := genOp(r, s.Keys, &next)
+			if len(dead) > 0 && r.Intn(2) == 0 {
+				isDead := func(k int) bool {
+					for _, d := range dead {
+						if d == k {
+							return true
+						}
+					}
+					return false
+				}
+				switch o.K {
+				case "store", "los":
+					// mostly one dead key, so that several clients meet on it
+					o.Key = dead[0]
+					if r.Intn(4) == 0 {
+						o.Key = dead[r.Intn(len(dead))]
+					}
+				case "del", "lad":
+					for try := 0; try < 8 && isDead(o.Key); try++ {
+						o.Key = r.Intn(s.Keys)
+					}
+				}
+			}
+			c = append(c, o)
 		}
 		s.Clients = append(s.Clients, c)
 	}
